@@ -77,9 +77,9 @@ def serial(kinds, params, source, sink_cyc, horizon, script=(), pools=None):
 
 
 STATION_PARAMS = {
-    'handler': [dict(cyc=c) for c in (0, 1, 2, 3, 5)],
-    'processor': [dict(cyc=c) for c in (0, 1, 2, 3, 5)],
-    'buffer': [dict(cap=c, delay=dl) for c in (1, 2, 3, -1) for dl in (0, 1, 2, 3)],
+    'handler': [dict(cyc=c) for c in (0, 1, 2, 3, 5, 7, 11)],
+    'processor': [dict(cyc=c) for c in (0, 1, 2, 3, 5, 7, 11)],
+    'buffer': [dict(cap=c, delay=dl) for c in (1, 2, 3, -1) for dl in (0, 1, 2, 3, 5, 10)],
 }
 
 
@@ -424,7 +424,7 @@ def quick_family(seed, scale=1):
     """The configurations of the quick tier (a few hundred)."""
     rng = random.Random(seed * 7919 + 13)
     out = []
-    ser = gen_serial(rng, 3, 90 * scale)
+    ser = gen_serial(rng, 3, 260 * scale, horizon=(16, 24, 40))
     out += ser
     out += [add_faults(rng, c, rng.choice([1, 2, 3])) for c in gen_serial(rng, 3, 90 * scale)
             if any(d['kind'] == 'processor' for d in c['devs'])]
